@@ -35,6 +35,9 @@ pub enum FakeSel {
     /// synthetic fake at trampoline+5+d (needs TrampSel::Pages); api 0 = will_execute_raw,
     /// 1 = unchecked, 2 = will_execute with a dummy verifier
     Synth { d: i64, api: u8 },
+    /// synthetic fake at an absolute generated address (class range + page + offset), e.g. in the
+    /// upper half of the low 4 GiB
+    SynthAbs { class: u8, page: u64, off: u16, api: u8 },
 }
 
 #[derive(Serialize, Deserialize, Clone, Debug, Hash, PartialEq, Eq)]
@@ -245,13 +248,17 @@ pub fn execute(c: &PlaceCase) -> PlaceObs {
     // ---- fake
     let mut _fake_arena: Option<Arena> = None;
     let mut synth_fake: Option<usize> = None;
-    if let FakeSel::Synth { d, .. } = &c.fake {
-        let Some(tp) = tpage else {
-            o.status = "discarded".into();
-            o.why = "synthetic fake needs a dictated trampoline".into();
-            return o;
+    let abs_fake = if let FakeSel::SynthAbs { class, page, off, .. } = &c.fake { Some(synth_base(*class, *page) as i64 + (*off as i64 % 0xFF0)) } else { None };
+    if matches!(&c.fake, FakeSel::Synth { .. } | FakeSel::SynthAbs { .. }) {
+        let fa = match (&c.fake, tpage, abs_fake) {
+            (_, _, Some(a)) => a,
+            (FakeSel::Synth { d, .. }, Some(tp), _) => (tp as i64).wrapping_add(5).wrapping_add(*d),
+            _ => {
+                o.status = "discarded".into();
+                o.why = "synthetic fake needs a dictated trampoline".into();
+                return o;
+            }
         };
-        let fa = (tp as i64).wrapping_add(5).wrapping_add(*d);
         if fa < 0x10000 || fa > 0x7FFF_FFFF_0000 {
             o.status = "discarded".into();
             o.why = format!("fake address {fa:#x} outside user space");
@@ -291,7 +298,7 @@ pub fn execute(c: &PlaceCase) -> PlaceObs {
                     let kind = if kinds.contains(kind) { *kind } else { kinds[*k as usize % kinds.len()] };
                     targets::install(&mut inj, &target, kind, *k as usize)
                 }
-                FakeSel::Synth { api, .. } => {
+                FakeSel::Synth { api, .. } | FakeSel::SynthAbs { api, .. } => {
                     let fa = synth_fake.unwrap();
                     let sig: &'static str = if target.class == Class::B { targets::SIG_B } else { targets::SIG_U };
                     unsafe {
@@ -443,12 +450,14 @@ pub fn strategy() -> impl Strategy<Value = PlaceCase> {
     let fake = prop_oneof![
         2 => (kind_strategy(), 0u8..4).prop_map(|(kind, k)| FakeSel::Rust { kind, k }),
         5 => (d, 0u8..3).prop_map(|(d, api)| FakeSel::Synth { d, api }),
+        2 => (prop_oneof![3 => Just(1u8), 1 => 0u8..5], any::<u64>(), 0u16..0xFF0, 0u8..3).prop_map(|(class, page, off, api)| FakeSel::SynthAbs { class, page: if class == 1 { page | 0x40000 } else { page }, off, api }),
     ];
     (target, tramp, fake, prop_oneof![3 => Just(0u8), 1 => 1u8..=4]).prop_map(|(target, tramp, fake, callers)| {
         // a synthetic fake needs a dictated trampoline; real targets keep the kernel's choice
         let (tramp, fake) = match (&target, tramp, fake) {
             (TargetSel::RealAsync(_), _, _) => (TrampSel::Kernel, FakeSel::Rust { kind: Kind::Raw, k: 0 }),
             (TargetSel::Real(_), _, FakeSel::Synth { .. }) => (TrampSel::Kernel, FakeSel::Rust { kind: Kind::Raw, k: 0 }),
+            (TargetSel::Real(_), _, f @ FakeSel::SynthAbs { .. }) => (TrampSel::Kernel, f),
             (TargetSel::Real(_), _, f) => (TrampSel::Kernel, f),
             (_, TrampSel::Kernel, FakeSel::Synth { d, api }) => (TrampSel::Pages((d % 1000) as i32), FakeSel::Synth { d, api }),
             (_, t, f) => (t, f),
